@@ -40,7 +40,7 @@ func configs14(tier string) []xplore.Config {
 func run14(cfg xplore.Config, ch vrt.Chooser, trace bool) (xplore.Outcome, *vrt.Result) {
 	d := cfg.Data.(cfg14)
 	var out xplore.Outcome
-	res := vrt.Run(ch, vrt.Options{Trace: trace}, func() {
+	res := vrt.Run(ch, vrt.Options{Reverse: cfg.Reverse, Trace: trace}, func() {
 		w := newWorld([]string{"t1", "t2"})
 		setupInitial(w)
 		x := newStream(subSpec{target: "t1", paths: []string{"a"}, mode: pb.SubscriptionList_STREAM, updatesOnly: d.updatesOnly})
